@@ -7,7 +7,8 @@ ENTRY = dict(
         corr_files=["Corr/C08Corr.v"],
         theorems=["c08_action_factor", "c08_factor_ge_1", "c08_cost_monotone", "c08_dijkstra", "c08_frontier_invariant",
                   "c08_flag_sound_guarded", "c08_flag_sound", "c08_pruning_sound_bounded", "c08_flag_sound_bounded",
-                  "c08_unrestricted", "c08_seed_independent", "c08_result_attained", "c08_enough_fuel",
+                  "c08_unrestricted", "c08_seed_independent", "c08_result_attained", "c08_unrestricted_spec",
+                  "c08_seed_independent_spec", "c08_unrestricted_bounded", "c08_seed_independent_bounded", "c08_enough_fuel",
                   "c08_facts", "c08_fact_requeue"],
         allowed_axioms=[],
         facts=["cf_left_wire_mult", "cf_right_wire_mult", "cf_both_wires_mult", "cf_gate_cut_uses_gate_gamma",
